@@ -11,7 +11,7 @@ RULE = ('sessions with enquire_link_interval I in {2.5, 4, 10} and socket_timeou
         'the k-th enquire_link after a delay drawn from {0, 0.25, T-0.25, T+0.25, never}, and sends unsolicited PDUs '
         '(enquire_link, deliver_sm, an unknown command, an unparsable deliver_sm) at random milliseconds, in bursts, periodically '
         'just below / just above I; the application submits messages meanwhile (periodically, once while a probe answer is awaited, '
-        'at random) which the SMSC answers or not - outbound traffic is no sign of life; exact ties (arrival exactly at I or I+T after a restart) are generated separately and judged '
+         'at random) which the SMSC answers or not - outbound traffic is no sign of life; in some sessions the peer stops reading at a random moment while TCP stays up (drain() of whatever is written never returns); exact ties (arrival exactly at I or I+T after a restart) are generated separately and judged '
         'by the predicate only. One model line per keeper run (several per session when the link is dropped and re-established). '
         'distinct-nontrivial = distinct (I, T, answer-delay pattern class, unsolicited pattern, number of keeper runs, dropped?, tie?)')
 TRUSTED = ['Lean 4.33.0 kernel', 'axioms: propext, Quot.sound, Classical.choice',
@@ -25,7 +25,7 @@ EXHAUSTIVE = {'quick': False, 'thorough': False}
 MS = 1000000          # quantum of the model lines: microseconds
 
 
-def run_session(rng, I, T, delays, unsolicited, horizon, tie=None, submits=(), sub_answer=True):
+def run_session(rng, I, T, delays, unsolicited, horizon, tie=None, submits=(), sub_answer=True, stall_at=None):
     """returns (keeper runs, events); a keeper run = dict(start, end, how, arrivals, probes, conn)"""
     s = Sim(enquire_link_interval=I, socket_timeout=T)
     runs = []
@@ -46,6 +46,15 @@ def run_session(rng, I, T, delays, unsolicited, horizon, tie=None, submits=(), s
             finally:
                 r['end'] = s.loop.time()
         s.esme._connection_keeper = keeper
+        # the moment a complete PDU has been read (what "received from the SMSC" means to the keeper), independent of
+        # how long the handlers, the hook or the response take afterwards
+        orig_get = s.esme._get_pdu
+
+        async def get_pdu():
+            r = await orig_get()
+            s.ev('pdu-read', int(r[1].smpp_command))
+            return r
+        s.esme._get_pdu = get_pdu
         # a TimeoutError inside the keeper is caught there; tell the cases apart by the log call
         orig_err = s.esme._logger.error
 
@@ -86,16 +95,24 @@ def run_session(rng, I, T, delays, unsolicited, horizon, tie=None, submits=(), s
                 s.smsc.submit_status = lambda seq: None
             for j, t in enumerate(submits):
                 s.at(t, s.enqueue, SubmitSm(short_message='out %d' % j, log_id='S%d' % j))
+        if stall_at is not None:
+            # the peer stops reading (and so stops answering) while TCP stays up: writes pile up, drain() never returns
+            s.at(stall_at, lambda: s.smsc.conns and s.smsc.conns[-1].stall(True))
         s.at(horizon, s.stop)
         s.run(horizon + 50)
         ev = list(s.events)
     finally:
         s.close()
     # attribute events to keeper runs
+    t_last = 1000.0 + max([e[0] for e in ev] + [0.0])
     for r in runs:
+        if r['end'] is None:
+            # the keeper was still running when the session was torn down (it should have ended with its session)
+            r['end'] = t_last
+            r['unfinished'] = True
         a, b = r['start'], r['end'] if r['end'] is not None else 1e18
-        r['arrivals'] = [e[0] for e in ev if e[1] == 'received' and a - 1000.0 <= e[0] <= b - 1000.0
-                         and not (e[2] or '').startswith('Bind')]
+        r['arrivals'] = [e[0] for e in ev if e[1] == 'pdu-read' and a - 1000.0 <= e[0] <= b - 1000.0
+                         and e[2] not in (0x80000001, 0x80000002, 0x80000009)]
         r['probes'] = [e[0] for e in ev if e[1] == 'sending' and e[2] == 'EnquireLink' and a - 1000.0 <= e[0] <= b - 1000.0]
     return runs, ev
 
@@ -184,12 +201,15 @@ def scenario(rng, tie=False):
     if tie:
         subs = []
     answer = rng.random() < 0.5
-    return I, T, dl, uns, horizon, (pat, up, sp, answer if subs else None), subs, answer
+    stall_at = None
+    if not tie and rng.random() < 0.3:
+        stall_at = round(rng.uniform(0.5, horizon * 0.6), 3) + 0.000533
+    return I, T, dl, uns, horizon, (pat, up, sp, answer if subs else None, stall_at is not None), subs, answer, stall_at
 
 
 def cases_of(rng, tie=False):
-    I, T, dl, uns, horizon, cls, subs, answer = scenario(rng, tie)
-    runs, ev = run_session(rng, I, T, dl, uns, horizon, submits=subs, sub_answer=answer)
+    I, T, dl, uns, horizon, cls, subs, answer, stall_at = scenario(rng, tie)
+    runs, ev = run_session(rng, I, T, dl, uns, horizon, submits=subs, sub_answer=answer, stall_at=stall_at)
     out = []
     for r in runs:
         if r['end'] is None:
@@ -202,9 +222,14 @@ def cases_of(rng, tie=False):
         real = 'ok probes=%s drop=%s' % (','.join(str(q(x)) for x in r['probes']) or '-',
                                         '-' if dropped is None else str(q(dropped - 1000.0)))
         fail = predicate(I, T, r, tie)
+        if r.get('unfinished'):
+            if fail is None:
+                fail = 'the keeper started at %.3f never ended although its session did (stop() at %.3f)' % (start, horizon)
+            line = '# unfinished ' + line
+            real = line + ' tie=0'
         sig = ('keeper', I, T, cls, len(runs), dropped is not None, tie)
         inp = {'op': 'session', 'I': I, 'T': T, 'delays': dl, 'unsolicited': uns, 'horizon': horizon, 'tie': tie,
-               'submits': subs, 'sub_answer': answer}
+               'submits': subs, 'sub_answer': answer, 'stall_at': stall_at}
         out.append((line, real, sig, fail, inp))
     return out
 
@@ -213,7 +238,7 @@ def generate(rng, tier):
     thorough = tier == 'thorough'
     for _ in range(400 if thorough else 90):
         for line, real, sig, fail, inp in cases_of(rng):
-            yield Case(line, real + ' tie=0', sig, fail, inp)
+            yield Case(line, real if line.startswith('#') else real + ' tie=0', sig, fail, inp)
     for _ in range(60 if thorough else 15):
         for line, real, sig, fail, inp in cases_of(rng, tie=True):
             # ties: outside the comparison, judged by the predicate only
@@ -222,7 +247,7 @@ def generate(rng, tier):
 
 def replay(inp):
     runs, ev = run_session(None, inp['I'], inp['T'], inp['delays'], [tuple(u) for u in inp['unsolicited']], inp['horizon'],
-                           submits=inp.get('submits', ()), sub_answer=inp.get('sub_answer', True))
+                           submits=inp.get('submits', ()), sub_answer=inp.get('sub_answer', True), stall_at=inp.get('stall_at'))
     worst = None
     for r in runs:
         if r['end'] is None:
